@@ -29,7 +29,7 @@ def register(prop):
          "current primary key with the label as AAD; every stream write is exactly the label header or encryptMsg|len|ciphertext covering the whole write, opened with an independent "
          "stdlib AES-GCM; reach probes per (path, message type) seen sealed; non-trivial = >50 buffers checked; " + FP,
          assumptions=["rotation steps are applied in the documented global order (new key installed everywhere before anyone uses it)"])
-    prop("C17", [dict(scn="C17", quick=6000, thorough=400000, wall_quick=90, wall_thorough=1200), dict(scn="C17R", quick=150, thorough=10000, wall_quick=100, wall_thorough=1500)],
+    prop("C17", [dict(scn="C17", quick=6000, thorough=400000, wall_quick=90, wall_thorough=1200), dict(scn="C17R", quick=150, thorough=10000, wall_quick=100, wall_thorough=1500), dict(scn="C17K", quick=4000, thorough=300000, wall_quick=40, wall_thorough=400)],
          "object mode: generated histories of NewKeyring/AddKey/UseKey/RemoveKey/GetKeys/GetPrimaryKey over a pool of valid (16/24/32), invalid-length, "
          "duplicate, absent and primary keys on empty and populated rings, interleaved with decryptions that are parked by the scheduler between two keys "
          "of the list they iterate while the ring changes; reference model = ordered list, primary first; every key list ever returned is snapshotted and "
@@ -120,7 +120,7 @@ def register(prop):
          "allowlisting node stores a record or has delivered an event with an outside address",
          assumptions=["an empty non-nil CIDRsAllowed is treated as 'no allowlist' (that is what the code and the pinned tests do; the doc comment disagrees) - generated, must not panic, nothing else asserted"])
 
-    prop("C14", [dict(scn="C14", quick=1500, thorough=100000, wall_quick=120, wall_thorough=2400)],
+    prop("C14", [dict(scn="C14", quick=1500, thorough=100000, wall_quick=120, wall_thorough=2400), dict(scn="C17K", quick=4000, thorough=200000, wall_quick=40, wall_thorough=300, only=["keyring-not-linearizable"])],
          "bench mode: genuine traffic of every type (ping, indirect ping, ack, nack, alive, suspect, dead, user, compound; user / push-pull / TCP-ping streams) produced by a real sender's "
          "own send pipeline, captured at the tap and injected into a quiescent real receiver (tickers off) as: every single-bit flip of every byte incl. label header, version byte, nonce, "
          "body, tag and stream length prefix (complete enumeration per sampled message); plaintext original; sealed under a foreign / removed / installed-then-removed key or another label; "
